@@ -256,7 +256,7 @@ class _Grad(_NoReplay):
         return tot
 
 
-@contract("genjax.inference.mcmc:_create_log_density_wrt_selected", ["C09"])
+@contract("genjax.inference.mcmc:_create_log_density_wrt_selected", ["C09", "C16"])
 class LogDensityWrtSelected(_Grad):
     """z |-> D(args, merge(unselected, z)); with everything selected z |-> D(args, z)"""
 
